@@ -7,8 +7,10 @@ git checkout -q -- . ; rm -f tests/seeded_confirm.rs
 git apply "$out/patch.diff" || { echo "RESULT apply-failed"; exit 1; }
 export CARGO_NET_OFFLINE=true
 cargo build --offline >/dev/null 2>&1 || { echo "RESULT build-failed"; git checkout -q -- .; exit 1; }
-suite=$(cargo test --workspace --offline --no-fail-fast 2>&1 | grep -E "^test result" | awk '{p+=$4; f+=$6} END {print p" passed "f" failed"}')
-flaky=$(cargo test --workspace --offline --no-fail-fast 2>&1 | grep -E "^test .* FAILED" | head -3 | tr '\n' ';')
+# doctests can hang on a loaded machine in the unrepaired Drop (fixed in /repo by 0511e00): run them under a timeout
+log=$(timeout 900 cargo test --workspace --offline --no-fail-fast --lib --tests 2>&1; timeout 600 cargo test --offline --doc 2>&1)
+suite=$(echo "$log" | grep -E "^test result" | awk '{p+=$4; f+=$6} END {print p" passed "f" failed"}')
+flaky=$(echo "$log" | grep -E "^test .* FAILED" | head -3 | tr '\n' ';')
 cp "$out/demo.rs" tests/seeded_confirm.rs
 with=$(cargo test --offline $feat --test seeded_confirm 2>&1 | grep -E "^test result" | head -1)
 git checkout -q -- src
